@@ -7,7 +7,7 @@ from . import dispatch as D, convert as CV, contrib as CB
 from .c08 import C_bytes, quantity_kind
 
 LEVEL = "other"
-TECHNIQUE = "table extraction by FDAI from the generic TryFrom<Token> bodies of the 14 quantities: (suffix literal -> uom unit type taken from the generic argument of Quantity::new) compared with the unit derived from the SCPI-99 multiplier table (M = milli, MA = mega, MHZ/MOHM exceptions, named units); base unit for bare numbers; element-type rows; amplitude (PK/PP/RMS) and decibel tables; case-insensitive comparison primitive; the number converted is the token's own numeric part"
+TECHNIQUE = 'table extraction by FDAI from the generic TryFrom<Token> bodies of the 14 quantities: (suffix literal -> uom unit type taken from the generic argument of Quantity::new) compared with the unit derived from the SCPI-99 multiplier table (M = milli, MA = mega, MHZ/MOHM exceptions, named units); base unit for bare numbers; element-type rows; decibel tables; the amplitude conversion folded on concrete suffix texts (which variant, which (number, stripped suffix) reaches the unit conversion); case-insensitivity census of the comparison primitives'
 LEVEL_TEXT = "Every entry of every suffix table in the compiled program is recovered from the MIR (which literal guards which Quantity::new::<unit> instantiation) and checked against the unit that SCPI-99's multiplier rule assigns to that suffix; the comparison primitive is checked to ignore case, unknown suffixes to give -224, non-numeric elements -104, and the numeric part to be passed unscaled to the value conversion."
 LEVEL_NOTE = "Not decided: uom's conversion coefficients themselves (trusted); float rounding of the scaled value. Suffixes the crate defines beyond SCPI-99's table are reported only if they contradict the multiplier rule. Trusted: rustc MIR, FDAI models, uom unit type names."
 
